@@ -71,7 +71,7 @@ func init() {
 			{ID: "C05.R3", Doc: "no path ending in a panic of Insert, Replace, Get, Delete, Pop, SubList, Sort writes a list before it", Run: c05WriteBeforePanic},
 			{ID: "C05.R4", Doc: "OWN: no two containers ever share a backing array (package-wide)", Run: func(c *Ctx) { c.R.Floor("C05.R4", ownRule(c, "C05.R4"), 8) }},
 			{ID: "C05.R5", Doc: "sequence model: Add, Insert, Replace, Delete, Pop, Clear, SubList, Concat executed on a folded spine (receiver lengths 0..3, stale cells in the spare capacity, Go's append/copy/slicing semantics): the visible content afterwards is exactly the model's", Run: c05Sequence},
-			{ID: "C05.R6", Doc: "reference semantics: Get returns spine[index].getVal(); IndexOf compares getVal() with ==", Run: c05Reference},
+			{ID: "C05.R6", Doc: "reference semantics: Get returns spine[index].getVal(); IndexOf and Contains compare getVal() with == (first match / any match; -1 / false when exhausted)", Run: c05Reference},
 			{ID: "C05.R9", Doc: "NewListOf(v, n): v is normalised once, before the loop, and that one field is installed n times (n aliases of one element, not n conversions)", Run: c05ListOf},
 			{ID: "C05.R8", Doc: "Reverse moves element i to n-1-i in place (= C17.R2)", Run: func(c *Ctx) { reverseRule(c, "C05.R8") }},
 			{ID: "C05.R7", Doc: "PURE: the observers (and SubList, Concat) write nothing pre-existing", Run: func(c *Ctx) {
@@ -1136,7 +1136,17 @@ func c05Reference(c *Ctx) {
 			ob.Fail("IndexOf is not the first-match search over getVal(): %s", why)
 		}
 	}
-	c.R.Floor("C05.R6", n, 2)
+	if fd := c.NeedDecl("C05.R6", "(*list).Contains"); fd != nil {
+		n++
+		ob := c.Ob("C05.R6", "(*list).Contains", fd.Pos())
+		why := searchShape(c, fd, "true")
+		if why == "" {
+			ob.Ok("true exactly when some element's getVal() == value (containers by identity), false for the exhausted search")
+		} else {
+			ob.Fail("Contains is not the getVal()==value search: %s", why)
+		}
+	}
+	c.R.Floor("C05.R6", n, 3)
 }
 
 func simplifyRet(p *Path) Term {
